@@ -331,6 +331,27 @@ fn explore(out : &mut Out, rng : &mut Rng, p : &Prepared, op : &Op, n_random : u
                 out.count(&format!("fine-runs:cache-ops:{}", match events.len() { 0 => "0", 1..=3 => "1-3", 4..=9 => "4-9", _ => "10+" }));
             }
         }
+        // R-cleanfine: the order in which the clean threads moved files into the cache, replayed through Model/CleanFine.v,
+        // must be a run of that model with this very outcome (the whole observation, cache entries' attributes included)
+        if let Op::Clean(goal) = op
+        {
+            if !inv.deadlock && !matches!(inv.verdict, Verdict::Panic(_) | Verdict::Fatal(_)) && inv.panicked_tasks.is_empty()
+            {
+                let mut events : Vec<String> = vec![];
+                for c in inv.calls.iter()
+                {
+                    let t = match c.task { Some(t) if t >= 1 => t - 1, _ => continue };
+                    if c.in_command { continue; }
+                    if c.op == "rename" && c.ok && c.path2.starts_with(&cache_prefix()) { events.push(format!("#{}", t)); }
+                }
+                let dd = d.sys.clone();
+                let disk_after = { dd.tick(); dd.disk() };
+                let case = sexp::paren(&["cleanfine".to_string(), sexp::boolean(false), sexp::num64(1_000_000), sexp::list(p.prep.iter().map(|o| o.show()).collect()),
+                                         sexp::option(goal.clone().map(|g| sexp::hex(g.as_bytes()))), sexp::list(events.clone())]);
+                out.case(case, sexp::paren(&["cleanfine".to_string(), "#0".to_string(), sexp::boolean(true), world::show_obs(Some(&inv), &disk_after)]), true);
+                out.count(&format!("cleanfine-runs:moves:{}", match events.len() { 0 => "0", 1..=3 => "1-3", 4..=9 => "4-9", _ => "10+" }));
+            }
+        }
         // distinctness of schedules: by the sequence of (task, event) pairs
         let mut h : u64 = 0xcbf29ce484222325;
         for e in inv.trace.iter() { for b in format!("{}:{};", e.task, e.what).bytes() { h ^= b as u64; h = h.wrapping_mul(0x100000001b3); } }
